@@ -353,3 +353,50 @@ Definition exemption_inert (q : quirks) (f : file) : bool :=
 
 (* the domain of C15: every section of the configuration is valid (none is rejected by its linter's config class) *)
 Definition cfg_clean (c : cfg) : bool := forallb (fun s => match s_rej s with [] => true | _ => false end) c.
+
+(* ------------------------------------------------------------------ several files in one run, symbolic links *)
+(* One linted path of an invocation: the file as dispatch sees it under the name that is linted, the final component
+   of the path the name resolves to when it is a symbolic link (None: a regular file), and the analysis oracle of its
+   content.  Orchestrator.lint_files / lint_directory hand every path to lint_file, which asks the detector afresh
+   (Gen.detect_stateless: the detector module keeps nothing between calls) for the path named by
+   Gen.detect_arg_resolved (false: the path as given; true: the symlink-resolved path - the model follows the source). *)
+Record entry := mk_entry { e_file : file; e_target : option string; e_tab : atab }.
+
+Definition seen_file (e : entry) : file :=
+  if detect_arg_resolved
+  then match e_target e with
+       | Some n => mk_file n (f_head (e_file e)) (f_nonempty (e_file e)) (f_readable (e_file e))
+       | None => e_file e
+       end
+  else e_file e.
+
+(* the language the rules' context carries for this path *)
+Definition entry_lang (q : quirks) (e : entry) : string := detect q (seen_file e).
+
+(* run_cmd with the language supplied from outside (same body as run_cmd) *)
+Definition run_with_lang (q : quirks) (cmd : string) (c : cfg) (t : atab) (f : file) (lang : string) : outcome :=
+  if aborts c f lang then Aborted
+  else match lookup cmd cli_filters with
+       | Some atoms => Ok (filter (fun v => passes atoms (fst v)) (run_all q t lang (f_name f)))
+       | None => Aborted
+       end.
+
+Definition run_entry (q : quirks) (cmd : string) (c : cfg) (e : entry) : outcome :=
+  run_with_lang q cmd c (e_tab e) (e_file e) (entry_lang q e).
+
+(* the languages assigned in one invocation, in the order of the paths *)
+Definition run_langs (q : quirks) (es : list entry) : list string := map (entry_lang q) es.
+
+(* one invocation on several paths: the per-file results in order; a run that ends with an error prints nothing *)
+Fixpoint run_files (q : quirks) (cmd : string) (c : cfg) (es : list entry) : outcome :=
+  match es with
+  | [] => Ok []
+  | e :: rest =>
+      match run_entry q cmd c e, run_files q cmd c rest with
+      | Ok a, Ok b => Ok (a ++ b)
+      | _, _ => Aborted
+      end
+  end.
+
+Definition spec_files (cmd : string) (es : list entry) : list viol :=
+  flat_map (fun e => spec_out cmd (e_tab e) (e_file e)) es.
